@@ -5,6 +5,7 @@
 import YataProofs.Indicators.History
 import YataProofs.MALaws
 import YataProofs.SelectionIndex
+import YataProofs.Numeric.StDev
 namespace Yata.Ind
 open Yata
 
@@ -161,6 +162,22 @@ theorem Aroon.vals_spec {P : Nat} {s : Aroon} (k : Candle ℚ)
     hi, li, { s with highest_index := h1, lowest_index := l1 }, ?_, ?_, hinv1, hinv2, ho1, ho2, hw1, hw2, rfl⟩
   · simp only [Aroon.vals, bind, Except.bind, hn1, hn2, pure, Except.pure]
   · simp [VExp.value, VExp.unit]
+
+/-- C05 (Bollinger): the centre is the mean and the variance under the bands is the sample variance of the last
+    `avg_size` source values; the bands are `centre ± sigma·sqrt(variance)` -/
+theorem BB.step_spec {P : Nat} {hist : List ℚ} {s : BB} (k : Candle ℚ) (hn : 2 ≤ s.cfg.avg_size)
+    (hm : SMA.Inv P s.cfg.avg_size hist s.ma) (hd : StDev.Inv P s.cfg.avg_size hist s.st_dev) :
+    let n := s.cfg.avg_size
+    let w := lastN n (hist ++ [k.source s.cfg.source])
+    ∃ s', s.step k = .ok (Spec.mean n w, (w.map fun x => (x - Spec.mean n w) * (x - Spec.mean n w)).sum / ((n - 1 : Nat) : ℚ), s') ∧
+      SMA.Inv P n (hist ++ [k.source s.cfg.source]) s'.ma ∧ StDev.Inv P n (hist ++ [k.source s.cfg.source]) s'.st_dev ∧
+      s'.cfg = s.cfg := by
+  intro n w
+  obtain ⟨o1, m1, hn1, hi1, ho1⟩ := SMA.next_spec (k.source s.cfg.source) (by omega) hm
+  obtain ⟨o2, d1, hn2, hi2, ho2⟩ := StDev.next_spec (k.source s.cfg.source) hn hd
+  refine ⟨{ s with ma := m1, st_dev := d1 }, ?_, hi1, hi2, rfl⟩
+  simp only [BB.step, bind, Except.bind, hn1, hn2, pure, Except.pure]
+  rw [ho1, ho2, StDev.peekVar_eq hn hi2]
 
 /-! ### RSI: value formula and range for an average that keeps non-negative inputs non-negative -/
 namespace RSI
